@@ -36,6 +36,8 @@ def project(c, x):
 def nontrivial(c, M, S, g, cls):
     if M.startswith("UNMODELLED"):
         return None
+    if c.stream == "list":
+        return ("bg", c.meta.get("ops"), c.meta.get("sts"), c.meta.get("segs", [""])[0])
     if c.stream == "fdorder":
         return ("order", c.fields[0].count(",") + 1, c.fields[1], c.fields[0].split(",")[-1][:1])
     return re.sub(r"\d+", "N", c.meta.get("script", ""))
@@ -257,4 +259,13 @@ def process(tier, rng, cicada):
         c.id = "o%d" % i
     oimpl = dict(proc.pmap(lambda ic: (ic[1].id, run_order(cicada, ic[1], ic[0])), list(enumerate(oc))))
     out.append(("o", oc, oimpl))
+    # (4): an earlier background job ends (exit or signal) while the foreground command is being waited for: the shell resumes only
+    # after the foreground command has ended and reports ITS status (the list-evaluation programs of C03 behind such a job)
+    from . import c03
+    import itertools
+    progs = [(list(ops), list(sts)) for n in (1, 2) for ops in itertools.product("sao", repeat=n - 1) for sts in itertools.product((0, 3), repeat=n)]
+    bc = c03.bg_cases(tier, progs * 3)
+    for i, c in enumerate(bc):
+        c.id = "b%d" % i
+    out.append(("bg", bc, c03.run_process(cicada, bc, "c")))
     return out
